@@ -29,7 +29,7 @@ def falsify(ctx, case: Dict) -> bool:
             ms = [hx.member(s, tf) for s, tf in zip(specs, tfs)]
             if len({m.name for m in ms}) != len(ms):
                 return False
-            h = hx.hexital(rows, ms)
+            h = hx.hexital(rows, ms, case.get("hcfg"))
             h.calculate()
             if after == "calc_index_mid" and len(rows) > 3:
                 for m in ms:
@@ -50,9 +50,9 @@ def falsify(ctx, case: Dict) -> bool:
                         i = i % n
                         vals = {"reading(+i)": m.reading(nm, i), "reading(-i)": m.reading(nm, i - n),
                                 "read_candle": m.read_candle(cs[i], nm), "direct": direct[i]}
-                        if m.timeframe is None or m.timeframe == h.timeframe:
-                            vals["Hexital.reading(+i)"] = h.reading(nm, i)
-                            vals["Hexital.reading(-i)"] = h.reading(nm, i - n)
+                        # Hexital.reading looks the name up in every timeframe's candles with that index
+                        vals["Hexital.reading(+i)"] = h.reading(nm, i)
+                        vals["Hexital.reading(-i)"] = h.reading(nm, i - n)
                         base = vals["direct"]
                         for k, v in vals.items():
                             if not E.same_value(v, base):
@@ -101,7 +101,9 @@ def run(ctx: core.Ctx) -> int:
     kinds = [k for k in X.KINDS if k != "AMORPH"]
     for _ in range(ctx.n(260, 3000)):
         n = rng.randint(1, 60 if not ctx.thorough else 150)
-        rows = X.gen_rows(rng, n, late=0, regime=rng.choice(["flat", "walk", "up", "eqclose", "mixed", "zero_vol"]))
+        hcfg = {"fill": True} if rng.random() < 0.3 else {}
+        rows = X.gen_rows(rng, n, late=0, regime=rng.choice(["flat", "walk", "up", "eqclose", "mixed", "zero_vol"]),
+                          ts_mode=rng.choice(["gaps", "biggaps", "biggaps"]) if hcfg else "regular")
         specs, tfs = [], []
         for j in range(rng.randint(1, 3)):
             # indicators that legitimately read 0 / False: Counter, OBV on zero volume, STDEVTHRES, TR on flat candles
@@ -111,7 +113,7 @@ def run(ctx: core.Ctx) -> int:
             specs.append(s)
             tfs.append(rng.choice([None, None, "T5", "T15"]))
         cases.append({"specs": specs, "rows": rows, "tfs": tfs, "probe": [rng.randrange(1000) for _ in range(3)],
-                      "after": rng.choice([None, None, "calc_index_mid"])})
+                      "after": rng.choice([None, None, "calc_index_mid"]), "hcfg": hcfg})
     for c in cases:
         ctx.count("eval_falsifier")
         falsify(ctx, c)
